@@ -89,7 +89,11 @@ Inductive dcase :=
 (* a node of a real dkg.Process run: stored terms, black-box outcome seen through the share
    (commits) and QUAL, completion instant somewhere in [t0, t1], its finished FinalGroup *)
 | DFinish (defsch : bytes) (st : dstate) (commits : list bytes) (qual : list Z) (t0 t1 : Z)
-          (hin : option hash_input) (hout : bytes) (out : group).
+          (hin : option hash_input) (hout : bytes) (out : group)
+(* the loops of internal/dkg/broadcast.go (newDispatcher, dispatcher.broadcast,
+   dispatcher.broadcastDirect) as read from the source by the engine: the premise [shape_ok] of
+   C06_echo_delivery *)
+| DEcho (s : dispatcher_shape).
 
 Definition ok (c : dcase) : bool :=
   match c with
@@ -105,6 +109,7 @@ Definition ok (c : dcase) : bool :=
                    (finish_dkg (oracle hin hout) defsch time_buffer_bits rounds_until_transition
                                st commits qual now) (Ok out))
               (zrange t0 (Z.to_nat (t1 - t0 + 1)))
+  | DEcho s => shape_ok s
   end.
 
 Definition mismatches (cs : list dcase) : list Z := mism_from ok 0 cs.
